@@ -143,7 +143,7 @@ def parse_errors(stderr, gen_name):
     return blocks
 
 
-def run_unit(unit, repo, seed=0, rlimit=None, timeout=900, extra_args=()):
+def run_unit(unit, repo, seed=0, rlimit=None, timeout=900, extra_args=(), canary=False):
     """Returns dict:
       status: 'ok' | 'fail' | 'undecided'
       reason: text for undecided
@@ -152,13 +152,13 @@ def run_unit(unit, repo, seed=0, rlimit=None, timeout=900, extra_args=()):
       wall_s, smt_s, cmd, trusted_scan{token:count}, rewrites, items
     """
     tpl = os.path.join(VERIF, 'units', unit + '.vrs')
-    out_rs = os.path.join(BUILD, unit + '.rs')
+    out_rs = os.path.join(BUILD, unit + ('__canary' if canary else '') + '.rs')
     res = dict(unit=unit, status='undecided', reason='', functions={}, obligations=[], discharged=[],
                failed=[], wall_s=0.0, smt_s=0.0, cmd='', trusted_scan={}, rewrites=[], items=[],
                stderr='')
     t0 = time.time()
     try:
-        meta = extract.generate(unit, tpl, repo, out_rs, out_rs + '.meta.json')
+        meta = extract.generate(unit, tpl, repo, out_rs, out_rs + '.meta.json', canary=canary)
     except extract.Lost as e:
         res['reason'] = 'lost anchor: %s' % e
         res['wall_s'] = time.time() - t0
